@@ -489,4 +489,515 @@ theorem typedConst_pos (k : Kind) (n a : Nat) (hn : n ≤ 64) (ha : a < 2 ^ n) :
     apply BitVec.eq_of_toNat_eq
     rw [BitVec.toNat_setWidth, hs, BitVec.toNat_ofNat]
 
+/-! ## The large path (types wider than 64 bits) -/
+
+theorem lt_two_pow_natBitLen (r : Nat) : r < 2 ^ natBitLen r := by
+  unfold natBitLen
+  split
+  · rename_i h; subst h; simp
+  · exact Nat.lt_log2_self
+
+theorem ofNat_mod_two_pow (n m a : Nat) (h : n ≤ m) : BitVec.ofNat n (a % 2 ^ m) = BitVec.ofNat n a := by
+  apply BitVec.eq_of_toNat_eq
+  simp only [BitVec.toNat_ofNat]
+  exact Nat.mod_mod_of_dvd _ (Nat.pow_dvd_pow 2 h)
+
+theorem ofInt_emod_two_pow (n m : Nat) (a : Int) (h : n ≤ m) :
+    BitVec.ofInt n (a % ((2 ^ m : Nat) : Int)) = BitVec.ofInt n a := by
+  apply BitVec.eq_of_toNat_eq
+  simp only [BitVec.toNat_ofInt]
+  congr 1
+  apply Int.emod_emod_of_dvd
+  exact Int.natCast_dvd_natCast.2 (Nat.pow_dvd_pow 2 h)
+
+theorem wires_nonneg (x : Int) (w : Nat) (hx : 0 ≤ x) : wires x w = x.toNat % 2 ^ w := by
+  unfold wires
+  rw [Int.toNat_emod hx (Int.natCast_nonneg _)]
+  rfl
+
+theorem ofNat_toNat_eq_ofInt (n : Nat) (x : Int) (hx : 0 ≤ x) : BitVec.ofNat n x.toNat = BitVec.ofInt n x := by
+  rw [← BitVec.ofInt_natCast, Int.toNat_of_nonneg hx]
+
+/-- an exact image is what the wires show -/
+theorem seen_of_imageExact (n : Nat) (t : TInfo) (v : MInt) (hi : imageExact (.int t v) = true) (hn : n ≤ t.bits) :
+    seenBV n (.int t v) = BitVec.ofNat n v.bigv.toNat := by
+  simp only [imageExact, decide_eq_true_eq] at hi
+  obtain ⟨h0, hlt⟩ := hi
+  show BitVec.ofNat n ((if v.isSmall = true then v.small.toNat else wires v.bigv v.bitLen) % 2 ^ t.bits) = _
+  rw [ofNat_mod_two_pow _ _ _ hn]
+  by_cases hs : v.isSmall = true
+  · simp only [hs, if_true]
+    have h64 : v.bits ≤ 64 := by simpa [MInt.isSmall] using hs
+    have hlt64 : v.bigv < ((2 ^ 64 : Nat) : Int) :=
+      Int.lt_of_lt_of_le hlt (by exact_mod_cast Nat.pow_le_pow_right (by omega) h64)
+    have : v.small = BitVec.ofInt 64 v.bigv := by
+      unfold MInt.small MInt.bigv
+      cases v.big with
+      | none => simp
+      | some w => rfl
+    rw [this]
+    congr 1
+    rw [BitVec.toNat_ofInt, Int.emod_eq_of_lt h0 hlt64]
+  · simp only [hs, Bool.false_eq_true, if_false]
+    congr 1
+    unfold wires
+    have hbl : v.bitLen = natBitLen v.bigv.natAbs := by simp [MInt.bitLen, hs]
+    rw [hbl]
+    have : v.bigv < ((2 ^ natBitLen v.bigv.natAbs : Nat) : Int) := by
+      have := lt_two_pow_natBitLen v.bigv.natAbs
+      omega
+    rw [Int.emod_eq_of_lt h0 this]
+
+
+/-- `Generator.Constant` on a large-path result `r ≥ 0` held in a receiver of more than 64 bits. -/
+theorem const_big (n B : Nat) (t : TInfo) (i : BitVec 64) (r : Nat) (hB : 64 < B) (hn : n ≤ t.bits) :
+    ∃ t' v, constantMpa { bits := B, i64 := i, big := some (r : Int) } (some t) = .ok (.int t' v) ∧
+      t'.kind = t.kind ∧ t.bits ≤ t'.bits ∧ imageExact (.int t' v) = true ∧ v.bigv = (r : Int) ∧
+      seenBV n (.int t' v) = BitVec.ofNat n r := by
+  rw [constantMpa_ok]
+  have hns : (({ bits := B, i64 := i, big := some (r : Int) } : MInt).isSmall) = false := by
+    simp [MInt.isSmall]; omega
+  have hbl : MInt.bitLen { bits := B, i64 := i, big := some (r : Int) } = natBitLen r := by
+    simp [MInt.bitLen, hns, MInt.bigv]
+  have himg : imageExact (.int ⟨t.kind, if t.bits < constSize (natBitLen r) then constSize (natBitLen r) else t.bits,
+      natBitLen r⟩ { bits := constSize (natBitLen r), i64 := i, big := some (r : Int) }) = true := by
+    simp only [imageExact, MInt.bigv]
+    apply decide_eq_true
+    refine ⟨Int.natCast_nonneg _, ?_⟩
+    have h1 := lt_two_pow_natBitLen r
+    have h2 : 2 ^ natBitLen r ≤ 2 ^ constSize (natBitLen r) := Nat.pow_le_pow_right (by omega) (le_constSize _)
+    exact_mod_cast Nat.lt_of_lt_of_le h1 h2
+  simp only [hbl]
+  refine ⟨_, _, rfl, rfl, ?_, himg, rfl, ?_⟩
+  · simp only []; split <;> omega
+  · rw [seen_of_imageExact n _ _ himg (by simp only []; split <;> omega)]
+    simp [MInt.bigv]
+
+/-- `mpa.New(B)`, `B > 64`, is a large-path receiver. -/
+theorem new_large (B : Nat) (hB : 64 < B) :
+    Mpa.new B = some { bits := B } ∧ (({ bits := B } : MInt).isSmall) = false := by
+  constructor
+  · simp [Mpa.new]; omega
+  · simp [MInt.isSmall]; omega
+
+theorem ofNat_wires (n nz : Nat) (x : Int) (hx : 0 ≤ x) (h : n ≤ nz) :
+    BitVec.ofNat n (wires x nz) = BitVec.ofNat n x.toNat := by
+  rw [wires_nonneg x nz hx, ofNat_mod_two_pow _ _ _ h]
+
+theorem ofInt_sub' (n : Nat) (a b : Int) : BitVec.ofInt n (a - b) = BitVec.ofInt n a - BitVec.ofInt n b := by
+  rw [Int.sub_eq_add_neg, BitVec.ofInt_add, BitVec.ofInt_neg, BitVec.sub_eq_add_neg]
+
+/-- adder / subtractor / multiplier at the result width on exact images -/
+theorem large_arith (n nz : Nat) (x y : Int) (hx : 0 ≤ x) (hy : 0 ≤ y) (h : n ≤ nz) :
+    BitVec.ofNat n ((wires x nz + wires y nz) % 2 ^ nz) = BitVec.ofNat n x.toNat + BitVec.ofNat n y.toNat ∧
+    BitVec.ofNat n ((wires x nz * wires y nz) % 2 ^ nz) = BitVec.ofNat n x.toNat * BitVec.ofNat n y.toNat ∧
+    BitVec.ofNat n ((((wires x nz : Nat) : Int) - (wires y nz : Nat)) % ((2 ^ nz : Nat) : Int)).toNat =
+      BitVec.ofNat n x.toNat - BitVec.ofNat n y.toNat := by
+  refine ⟨?_, ?_, ?_⟩
+  · rw [ofNat_mod_two_pow _ _ _ h, BitVec.ofNat_add, ofNat_wires n nz x hx h, ofNat_wires n nz y hy h]
+  · rw [ofNat_mod_two_pow _ _ _ h, BitVec.ofNat_mul, ofNat_wires n nz x hx h, ofNat_wires n nz y hy h]
+  · have hnn : 0 ≤ (((wires x nz : Nat) : Int) - (wires y nz : Nat)) % ((2 ^ nz : Nat) : Int) :=
+      Int.emod_nonneg _ (by exact_mod_cast (Nat.pos_iff_ne_zero.1 (Nat.two_pow_pos nz)))
+    rw [ofNat_toNat_eq_ofInt n _ hnn, ofInt_emod_two_pow n nz _ h, ofInt_sub', BitVec.ofInt_natCast,
+      BitVec.ofInt_natCast, ofNat_wires n nz x hx h, ofNat_wires n nz y hy h]
+
+
+/-- math/big bitwise operations on non-negative values are the `Nat` operations. -/
+theorem intBitwise_nonneg (f : Nat → Nat → Nat) (hf : ∀ a b k, a < 2 ^ k → b < 2 ^ k → f a b < 2 ^ k)
+    (x y : Int) (hx : 0 ≤ x) (hy : 0 ≤ y) : intBitwise f x y = ((f x.toNat y.toNat : Nat) : Int) := by
+  unfold intBitwise
+  have hX : x.natAbs = x.toNat := by omega
+  have hY : y.natAbs = y.toNat := by omega
+  rw [hX, hY]
+  generalize hw : max (natBitLen x.toNat) (natBitLen y.toNat) = m
+  have h1 : x.toNat < 2 ^ m :=
+    Nat.lt_of_lt_of_le (lt_two_pow_natBitLen _) (Nat.pow_le_pow_right (by omega) (by omega))
+  have h2 : y.toNat < 2 ^ m :=
+    Nat.lt_of_lt_of_le (lt_two_pow_natBitLen _) (Nat.pow_le_pow_right (by omega) (by omega))
+  have hm : 2 ^ m < 2 ^ (m + 1) := Nat.pow_lt_pow_right (by omega) (by omega)
+  have hwx : wires x (m + 1) = x.toNat := by
+    rw [wires_nonneg x _ hx]; exact Nat.mod_eq_of_lt (by omega)
+  have hwy : wires y (m + 1) = y.toNat := by
+    rw [wires_nonneg y _ hy]; exact Nat.mod_eq_of_lt (by omega)
+  have hr : f x.toNat y.toNat < 2 ^ m := hf _ _ _ h1 h2
+  simp only [hwx, hwy, Nat.add_sub_cancel]
+  rw [Nat.mod_eq_of_lt (by omega)]
+  rw [if_neg (by omega)]
+
+theorem hf_and : ∀ a b k, a < 2 ^ k → b < 2 ^ k → a &&& b < 2 ^ k := fun a _ _ _ hb => Nat.and_lt_two_pow a hb
+theorem hf_or : ∀ a b k, a < 2 ^ k → b < 2 ^ k → a ||| b < 2 ^ k := fun _ _ _ ha hb => Nat.or_lt_two_pow ha hb
+theorem hf_xor : ∀ a b k, a < 2 ^ k → b < 2 ^ k → a ^^^ b < 2 ^ k := fun _ _ _ ha hb => Nat.xor_lt_two_pow ha hb
+theorem hf_andnot : ∀ a b k, a < 2 ^ k → b < 2 ^ k → a ^^^ (a &&& b) < 2 ^ k :=
+  fun a _ _ ha hb => Nat.xor_lt_two_pow ha (Nat.and_lt_two_pow a hb)
+
+theorem ofNat_or (n x y : Nat) : BitVec.ofNat n (x ||| y) = BitVec.ofNat n x ||| BitVec.ofNat n y := by
+  apply BitVec.eq_of_toNat_eq; simp [BitVec.toNat_ofNat]
+theorem ofNat_xor (n x y : Nat) : BitVec.ofNat n (x ^^^ y) = BitVec.ofNat n x ^^^ BitVec.ofNat n y := by
+  apply BitVec.eq_of_toNat_eq; simp [BitVec.toNat_ofNat]
+theorem bv_andnot {n : Nat} (a b : BitVec n) : a ^^^ (a &&& b) = a &&& ~~~b := by
+  apply BitVec.eq_of_getLsbD_eq
+  intro i hi
+  simp only [BitVec.getLsbD_xor, BitVec.getLsbD_and, BitVec.getLsbD_not, hi, decide_true, Bool.true_and]
+  cases a.getLsbD i <;> cases b.getLsbD i <;> rfl
+
+
+/-- What the large path stores for a wrap operator: a non-negative number congruent to `x op y`. -/
+def wrapNat (op : Op) (nz : Nat) (x y : Int) : Nat :=
+  match op with
+  | .add => (wires x nz + wires y nz) % 2 ^ nz
+  | .sub => ((((wires x nz : Nat) : Int) - (wires y nz : Nat)) % ((2 ^ nz : Nat) : Int)).toNat
+  | .mul => (wires x nz * wires y nz) % 2 ^ nz
+  | .band => x.toNat &&& y.toNat
+  | .bor => x.toNat ||| y.toNat
+  | .bxor => x.toNat ^^^ y.toNat
+  | _ => x.toNat ^^^ (x.toNat &&& y.toNat)
+
+theorem evalBin_wrap_wide (op : Op) (hop : op.isWrap = true) (lt rt : TInfo) (lv rv : MInt)
+    (hk : lt.kind = rt.kind) (hL : 64 < lt.bits) (hx : 0 ≤ lv.bigv) (hy : 0 ≤ rv.bigv) :
+    ∃ B i, 64 < B ∧ lt.bits ≤ B ∧ evalBin op (.int lt lv) (.int rt rv) =
+      constantMpa { bits := B, i64 := i, big := some ((wrapNat op (max (max lv.bits rv.bits) lt.bits) lv.bigv rv.bigv : Nat) : Int) }
+        (some lt) := by
+  obtain ⟨hnew, hns⟩ := new_large lt.bits hL
+  have hnn : 0 ≤ (((wires lv.bigv (max (max lv.bits rv.bits) lt.bits) : Nat) : Int) -
+      (wires rv.bigv (max (max lv.bits rv.bits) lt.bits) : Nat)) % ((2 ^ (max (max lv.bits rv.bits) lt.bits) : Nat) : Int) :=
+    Int.emod_nonneg _ (by exact_mod_cast (Nat.pos_iff_ne_zero.1 (Nat.two_pow_pos _)))
+  cases op <;> simp [Op.isWrap] at hop
+  · exact ⟨max (max lv.bits rv.bits) lt.bits, 0#64, by omega, by omega, by
+      simp [evalBin, Op.isCmp, Op.isShift, Op.isArith, hk, hnew, hns, liftP, Mpa.add, largeAdd, wrapNat, bind, Except.bind]⟩
+  · refine ⟨max (max lv.bits rv.bits) lt.bits, 0#64, by omega, by omega, ?_⟩
+    have hcast : ((wrapNat .sub (max (max lv.bits rv.bits) lt.bits) lv.bigv rv.bigv : Nat) : Int) =
+        (((wires lv.bigv (max (max lv.bits rv.bits) lt.bits) : Nat) : Int) -
+          (wires rv.bigv (max (max lv.bits rv.bits) lt.bits) : Nat)) % ((2 ^ (max (max lv.bits rv.bits) lt.bits) : Nat) : Int) := by
+      simp only [wrapNat]; exact Int.toNat_of_nonneg hnn
+    rw [hcast]
+    simp [evalBin, Op.isCmp, Op.isShift, Op.isArith, hk, hnew, hns, liftP, Mpa.sub, largeSub, bind, Except.bind]
+  · exact ⟨max (max lv.bits rv.bits) lt.bits, 0#64, by omega, by omega, by
+      simp [evalBin, Op.isCmp, Op.isShift, Op.isArith, hk, hnew, hns, liftP, Mpa.mul, largeMul, wrapNat, bind, Except.bind]⟩
+  · exact ⟨lt.bits, 0#64, hL, Nat.le_refl _, by
+      simp [evalBin, Op.isCmp, Op.isShift, Op.isArith, hk, hnew, hns, liftP, Mpa.and, Mpa.bitwise, wrapNat, bind, Except.bind,
+        intBitwise_nonneg _ hf_and _ _ hx hy]⟩
+  · exact ⟨lt.bits, 0#64, hL, Nat.le_refl _, by
+      simp [evalBin, Op.isCmp, Op.isShift, Op.isArith, hk, hnew, hns, liftP, Mpa.or, Mpa.bitwise, wrapNat, bind, Except.bind,
+        intBitwise_nonneg _ hf_or _ _ hx hy]⟩
+  · exact ⟨lt.bits, 0#64, hL, Nat.le_refl _, by
+      simp [evalBin, Op.isCmp, Op.isShift, Op.isArith, hk, hnew, hns, liftP, Mpa.xor, Mpa.bitwise, wrapNat, bind, Except.bind,
+        intBitwise_nonneg _ hf_xor _ _ hx hy]⟩
+  · exact ⟨lt.bits, 0#64, hL, Nat.le_refl _, by
+      simp [evalBin, Op.isCmp, Op.isShift, Op.isArith, hk, hnew, hns, liftP, Mpa.andNot, Mpa.bitwise, wrapNat, bind, Except.bind,
+        intBitwise_nonneg _ hf_andnot _ _ hx hy]⟩
+
+theorem wrapNat_spec (op : Op) (hop : op.isWrap = true) (signed : Bool) (n nz cnt : Nat) (x y : Int) (hx : 0 ≤ x) (hy : 0 ≤ y)
+    (h : n ≤ nz) :
+    BitVec.ofNat n (wrapNat op nz x y) = circuitOp op signed (BitVec.ofNat n x.toNat) (BitVec.ofNat n y.toNat) cnt := by
+  obtain ⟨h1, h2, h3⟩ := large_arith n nz x y hx hy h
+  cases op <;> simp [Op.isWrap] at hop <;> simp only [wrapNat, circuitOp]
+  · exact h1
+  · exact h3
+  · exact h2
+  · exact BitVec.ofNat_and
+  · exact ofNat_or _ _ _
+  · exact ofNat_xor _ _ _
+  · rw [ofNat_xor, BitVec.ofNat_and, bv_andnot]
+
+/-- `+ - * & | ^ &^` on the LARGE path (left type wider than 64 bits): for every `n ≤ Bits` and all operand
+constants with exact images, folding succeeds, the result again has an exact image, and its low `n` wires are the
+run-time instruction on the operands' low `n` wires. -/
+theorem fold_wrap_wide (op : Op) (hop : op.isWrap = true) (signed : Bool) (n cnt : Nat) (lt rt : TInfo) (lv rv : MInt)
+    (hk : lt.kind = rt.kind) (hL : 64 < lt.bits) (hn : n ≤ lt.bits) (hnr : n ≤ rt.bits)
+    (hil : imageExact (.int lt lv) = true) (hir : imageExact (.int rt rv) = true) :
+    ∃ t v, evalBin op (.int lt lv) (.int rt rv) = .ok (.int t v) ∧ t.kind = lt.kind ∧ lt.bits ≤ t.bits ∧
+      imageExact (.int t v) = true ∧
+      seenBV n (.int t v) = circuitOp op signed (seenBV n (.int lt lv)) (seenBV n (.int rt rv)) cnt := by
+  have hx : 0 ≤ lv.bigv := by simp only [imageExact, decide_eq_true_eq] at hil; exact hil.1
+  have hy : 0 ≤ rv.bigv := by simp only [imageExact, decide_eq_true_eq] at hir; exact hir.1
+  obtain ⟨B, i, hB, hBl, he⟩ := evalBin_wrap_wide op hop lt rt lv rv hk hL hx hy
+  obtain ⟨t, v, h1, h2, h3, h4, _, h6⟩ := const_big n B lt i _ hB hn
+  refine ⟨t, v, by rw [he, h1], h2, h3, h4, ?_⟩
+  rw [h6, seen_of_imageExact n lt lv hil hn, seen_of_imageExact n rt rv hir hnr]
+  exact wrapNat_spec op hop signed n _ cnt _ _ hx hy (by omega)
+
+
+theorem ofNat_shl (n x c : Nat) : BitVec.ofNat n (x * 2 ^ c) = BitVec.ofNat n x <<< c := by
+  apply BitVec.eq_of_toNat_eq
+  simp [BitVec.toNat_shiftLeft, Nat.shiftLeft_eq, Nat.mul_mod]
+
+/-- `<<` on the large path. -/
+theorem fold_shl_wide (signed : Bool) (n : Nat) (lt rt : TInfo) (lv rv : MInt) (c : BitVec 64) (hc : rv.int64 = some c)
+    (hL : 64 < lt.bits) (hn : n ≤ lt.bits) (hil : imageExact (.int lt lv) = true) :
+    ∃ t v, evalBin .shl (.int lt lv) (.int rt rv) = .ok (.int t v) ∧ t.kind = lt.kind ∧ lt.bits ≤ t.bits ∧
+      imageExact (.int t v) = true ∧
+      seenBV n (.int t v) = circuitOp .shl signed (seenBV n (.int lt lv)) (seenBV n (.int rt rv)) c.toNat := by
+  have hx : 0 ≤ lv.bigv := by simp only [imageExact, decide_eq_true_eq] at hil; exact hil.1
+  obtain ⟨hnew, hns⟩ := new_large lt.bits hL
+  have hv : lv.bigv <<< c.toNat = ((lv.bigv.toNat * 2 ^ c.toNat : Nat) : Int) := by
+    rw [Int.shiftLeft_eq]; push_cast; rw [Int.toNat_of_nonneg hx]
+  have hv0 : (0 : Int) ≤ ((lv.bigv.toNat * 2 ^ c.toNat : Nat) : Int) := Int.natCast_nonneg _
+  have he : evalBin .shl (.int lt lv) (.int rt rv) =
+      constantMpa { bits := lt.bits, i64 := 0#64, big := some (((lv.bigv.toNat * 2 ^ c.toNat) % 2 ^ lt.bits : Nat) : Int) }
+        (some lt) := by
+    simp only [evalBin, Op.isCmp, Op.isShift, hnew, hc, liftP, Mpa.lsh, hns, hv, hv0, bind, Except.bind, if_true,
+      Bool.false_eq_true, if_false, beq_self_eq_true]
+    rw [← Int.natCast_emod]
+  obtain ⟨t, v, h1, h2, h3, h4, _, h6⟩ := const_big n lt.bits lt 0#64 _ hL hn
+  refine ⟨t, v, by rw [he, h1], h2, h3, h4, ?_⟩
+  rw [h6, seen_of_imageExact n lt lv hil hn, ofNat_mod_two_pow _ _ _ hn]
+  exact ofNat_shl _ _ _
+
+/-- unary minus on the large path: `NewInt(0, Bits).Sub(r, val)` -/
+theorem fold_neg_wide (signed : Bool) (n cnt : Nat) (t : TInfo) (v : MInt) (hL : 64 < t.bits) (hn : n ≤ t.bits)
+    (hi : imageExact (.int t v) = true) :
+    ∃ t' v', negate (.int t v) = .ok (.int t' v') ∧ t'.kind = t.kind ∧ t.bits ≤ t'.bits ∧
+      imageExact (.int t' v') = true ∧
+      seenBV n (.int t' v') = circuitOp .neg signed (seenBV n (.int t v)) (seenBV n (.int t v)) cnt := by
+  have hx : 0 ≤ v.bigv := by simp only [imageExact, decide_eq_true_eq] at hi; exact hi.1
+  have hne : t.bits ≠ 0 := by omega
+  have hns : (({ bits := t.bits, i64 := 0#64 } : MInt).isSmall) = false := by simp [MInt.isSmall]; omega
+  have hnn : 0 ≤ (((wires 0 (max (max t.bits v.bits) t.bits) : Nat) : Int) -
+      (wires v.bigv (max (max t.bits v.bits) t.bits) : Nat)) % ((2 ^ (max (max t.bits v.bits) t.bits) : Nat) : Int) :=
+    Int.emod_nonneg _ (by exact_mod_cast (Nat.pos_iff_ne_zero.1 (Nat.two_pow_pos _)))
+  have he : negate (.int t v) =
+      constantMpa { bits := max (max t.bits v.bits) t.bits, i64 := 0#64,
+                    big := some ((wrapNat .sub (max (max t.bits v.bits) t.bits) 0 v.bigv : Nat) : Int) } (some t) := by
+    have hcast : ((wrapNat .sub (max (max t.bits v.bits) t.bits) 0 v.bigv : Nat) : Int) =
+        (((wires 0 (max (max t.bits v.bits) t.bits) : Nat) : Int) -
+          (wires v.bigv (max (max t.bits v.bits) t.bits) : Nat)) % ((2 ^ (max (max t.bits v.bits) t.bits) : Nat) : Int) := by
+      simp only [wrapNat]; exact Int.toNat_of_nonneg hnn
+    rw [hcast]
+    simp [negate, newInt, hne, Mpa.sub, hns, largeSub, liftP, bind, Except.bind, MInt.bigv]
+  obtain ⟨t', v', h1, h2, h3, h4, _, h6⟩ := const_big n (max (max t.bits v.bits) t.bits) t 0#64
+    (wrapNat .sub (max (max t.bits v.bits) t.bits) 0 v.bigv) (by omega) hn
+  refine ⟨t', v', by rw [he, h1], h2, h3, h4, ?_⟩
+  rw [h6, seen_of_imageExact n t v hi hn]
+  have := wrapNat_spec .sub rfl signed n (max (max t.bits v.bits) t.bits) cnt 0 v.bigv (Int.le_refl 0) hx (by omega)
+  rw [this]
+  simp [circuitOp]
+
+
+/-- Comparisons, EVERY width: when `Cmp` (small: `Int64()`, large: `signed(bits-1)`) sees the typed values the
+folded boolean is the run-time comparator's output. -/
+theorem fold_cmp_all (op : Op) (hop : op.isCmp = true) (signed : Bool) (n : Nat) (lt rt : TInfo) (lv rv : MInt)
+    (h : cmpAgrees signed n (.int lt lv) (.int rt rv) = true) :
+    evalBin op (.int lt lv) (.int rt rv) =
+      .ok (.bool (circuitCmp op signed (seenBV n (.int lt lv)) (seenBV n (.int rt rv)))) := by
+  by_cases hs : (lv.isSmall && rv.isSmall) = true
+  · simp only [cmpAgrees, mpaOf, hs, if_true] at h
+    simp only [Bool.and_eq_true] at hs h
+    have hlv : lv.bits ≤ 64 := by simpa [MInt.isSmall] using hs.1
+    have hrv : rv.bits ≤ 64 := by simpa [MInt.isSmall] using hs.2
+    obtain ⟨hil, hir⟩ := h
+    simp only [int64Agrees] at hil hir
+    cases ha : lv.int64 with
+    | none => simp [ha] at hil
+    | some a =>
+      cases hb : rv.int64 with
+      | none => simp [hb] at hir
+      | some b =>
+        rw [evalBin_cmp op hop lt rt lv rv hlv hrv a b ha hb]
+        simp only [ha, hb] at hil hir
+        cases signed
+        · simp only [Bool.false_eq_true, if_false, beq_iff_eq] at hil hir
+          rw [hil, hir, cmpResult_unsigned op hop]
+        · simp only [if_true, beq_iff_eq] at hil hir
+          rw [hil, hir, cmpResult_signed op hop]
+  · simp only [cmpAgrees, mpaOf, hs, Bool.false_eq_true, if_false] at h
+    simp only [Bool.and_eq_true, beq_iff_eq] at h
+    have hcmp : Mpa.cmp lv rv = some (cmpInt lv.signedVal rv.signedVal) := by
+      unfold Mpa.cmp
+      rw [if_neg]
+      intro hc
+      apply hs
+      simp [hc.1, hc.2]
+    simp only [evalBin, hop, hcmp, liftP, bind, Except.bind, if_true]
+    cases signed
+    · simp only [Bool.false_eq_true, if_false] at h
+      rw [h.1, h.2, cmpResult_unsigned op hop]
+    · simp only [if_true] at h
+      rw [h.1, h.2, cmpResult_signed op hop]
+
+
+/-- `Generator.Constant` on a non-negative big value `r < 2^B` in a receiver of any size `B`. -/
+theorem const_nat (n B : Nat) (t : TInfo) (i : BitVec 64) (r : Nat) (hr : r < 2 ^ B) (hn : n ≤ t.bits) :
+    ∃ t' v, constantMpa { bits := B, i64 := i, big := some (r : Int) } (some t) = .ok (.int t' v) ∧
+      t'.kind = t.kind ∧ t.bits ≤ t'.bits ∧ imageExact (.int t' v) = true ∧
+      seenBV n (.int t' v) = BitVec.ofNat n r := by
+  by_cases hB : 64 < B
+  · obtain ⟨t', v, h1, h2, h3, h4, _, h6⟩ := const_big n B t i r hB hn
+    exact ⟨t', v, h1, h2, h3, h4, h6⟩
+  · rw [constantMpa_ok]
+    have hs : (({ bits := B, i64 := i, big := some (r : Int) } : MInt).isSmall) = true := by
+      simp [MInt.isSmall]; omega
+    have hr64 : r < 2 ^ 64 := Nat.lt_of_lt_of_le hr (Nat.pow_le_pow_right (by omega) (by omega))
+    have hsm : MInt.small { bits := B, i64 := i, big := some (r : Int) } = BitVec.ofNat 64 r := by
+      simp [MInt.small, BitVec.ofInt_natCast]
+    have hbl : MInt.bitLen { bits := B, i64 := i, big := some (r : Int) } = bitLen64 (BitVec.ofNat 64 r) := by
+      simp only [MInt.bitLen, hs, if_true, hsm]
+    have hlt : r < 2 ^ bitLen64 (BitVec.ofNat 64 r) := by
+      unfold bitLen64
+      simp only [BitVec.toNat_ofNat, Nat.mod_eq_of_lt hr64]
+      split
+      · rename_i h0; omega
+      · exact Nat.lt_log2_self
+    have himg : imageExact (.int ⟨t.kind, if t.bits < constSize (bitLen64 (BitVec.ofNat 64 r)) then
+        constSize (bitLen64 (BitVec.ofNat 64 r)) else t.bits, bitLen64 (BitVec.ofNat 64 r)⟩
+        { bits := constSize (bitLen64 (BitVec.ofNat 64 r)), i64 := i, big := some (r : Int) }) = true := by
+      simp only [imageExact, MInt.bigv]
+      apply decide_eq_true
+      refine ⟨Int.natCast_nonneg _, ?_⟩
+      have h2 : 2 ^ bitLen64 (BitVec.ofNat 64 r) ≤ 2 ^ constSize (bitLen64 (BitVec.ofNat 64 r)) :=
+        Nat.pow_le_pow_right (by omega) (le_constSize _)
+      exact_mod_cast Nat.lt_of_lt_of_le hlt h2
+    simp only [hbl]
+    refine ⟨_, _, rfl, rfl, ?_, himg, ?_⟩
+    · simp only []; split <;> omega
+    · rw [seen_of_imageExact n _ _ himg (by simp only []; split <;> omega)]
+      simp [MInt.bigv]
+
+theorem ofNat_ushr (n x c : Nat) (hx : x < 2 ^ n) : BitVec.ofNat n (x / 2 ^ c) = BitVec.ofNat n x >>> c := by
+  apply BitVec.eq_of_toNat_eq
+  simp only [BitVec.toNat_ofNat, BitVec.toNat_ushiftRight, Nat.shiftRight_eq_div_pow, Nat.mod_eq_of_lt hx]
+  exact Nat.mod_eq_of_lt (Nat.lt_of_le_of_lt (Nat.div_le_self _ _) hx)
+
+/-- `>>` on the large path (`big.Rsh` of the image): right for operands that fit `n` bits and are not negative. -/
+theorem fold_shr_wide (signed : Bool) (n : Nat) (lt rt : TInfo) (lv rv : MInt) (c : BitVec 64) (hc : rv.int64 = some c)
+    (hL : 64 < lt.bits) (hn : n ≤ lt.bits) (he : extendedWide signed n (.int lt lv) = true) :
+    ∃ t v, evalBin .shr (.int lt lv) (.int rt rv) = .ok (.int t v) ∧ t.kind = lt.kind ∧
+      seenBV n (.int t v) = circuitOp .shr signed (seenBV n (.int lt lv)) (seenBV n (.int rt rv)) c.toNat := by
+  simp only [extendedWide, Bool.and_eq_true, decide_eq_true_eq, Bool.or_eq_true, Bool.not_eq_true'] at he
+  obtain ⟨⟨hil, hfit⟩, hsg⟩ := he
+  have hil' := hil
+  simp only [imageExact, decide_eq_true_eq] at hil'
+  obtain ⟨hx, hxb⟩ := hil'
+  obtain ⟨hnew, hns⟩ := new_large lt.bits hL
+  have hX : lv.bigv = ((lv.bigv.toNat : Nat) : Int) := (Int.toNat_of_nonneg hx).symm
+  have hq : lv.bigv >>> c.toNat = ((lv.bigv.toNat / 2 ^ c.toNat : Nat) : Int) := by
+    rw [Int.shiftRight_eq_div_pow]
+    conv => lhs; rw [hX]
+    exact (Int.natCast_ediv _ _).symm
+  have hXn : lv.bigv.toNat < 2 ^ n := by
+    have : ((lv.bigv.toNat : Nat) : Int) < ((2 ^ n : Nat) : Int) := by rw [← hX]; exact hfit
+    exact_mod_cast this
+  have hXb : lv.bigv.toNat < 2 ^ lv.bits := by
+    have : ((lv.bigv.toNat : Nat) : Int) < ((2 ^ lv.bits : Nat) : Int) := by rw [← hX]; exact hxb
+    exact_mod_cast this
+  have heq : evalBin .shr (.int lt lv) (.int rt rv) =
+      constantMpa { bits := lv.bits, i64 := 0#64, big := some ((lv.bigv.toNat / 2 ^ c.toNat : Nat) : Int) } (some lt) := by
+    simp [evalBin, Op.isCmp, Op.isShift, hnew, hc, liftP, Mpa.rsh, hns, hq, bind, Except.bind]
+  obtain ⟨t, v, h1, h2, _, _, h5⟩ := const_nat n lv.bits lt 0#64 (lv.bigv.toNat / 2 ^ c.toNat)
+    (Nat.lt_of_le_of_lt (Nat.div_le_self _ _) hXb) hn
+  refine ⟨t, v, by rw [heq, h1], h2, ?_⟩
+  rw [h5, seen_of_imageExact n lt lv hil hn, ofNat_ushr n _ _ hXn]
+  simp only [circuitOp]
+  cases signed
+  · simp
+  · have hm : (seenBV n (CV.int lt lv)).msb = false := by
+      cases hsg with
+      | inl h => exact absurd h (by decide)
+      | inr h => exact h
+    rw [seen_of_imageExact n lt lv hil hn] at hm
+    simp [BitVec.sshiftRight_eq_of_msb_false hm]
+
+
+theorem idivC_nonneg (m a b : Nat) (ha : a < 2 ^ (m - 1)) (hb : b < 2 ^ (m - 1)) (hb0 : b ≠ 0) :
+    idivC m a b = (a / b, a % b) := by
+  unfold idivC
+  simp [Nat.testBit_lt_two_pow ha, Nat.testBit_lt_two_pow hb, udivC, umodC, hb0]
+
+theorem ofNat_udiv (n a b : Nat) (ha : a < 2 ^ n) (hb : b < 2 ^ n) (hb0 : b ≠ 0) :
+    BitVec.ofNat n (a / b) = udivBV (BitVec.ofNat n a) (BitVec.ofNat n b) ∧
+    BitVec.ofNat n (a % b) = umodBV (BitVec.ofNat n a) (BitVec.ofNat n b) := by
+  have hne : BitVec.ofNat n b ≠ 0#n := by
+    intro h
+    have := congrArg BitVec.toNat h
+    simp [Nat.mod_eq_of_lt hb] at this
+    exact hb0 this
+  unfold udivBV umodBV
+  rw [if_neg hne, if_neg hne]
+  constructor <;> apply BitVec.eq_of_toNat_eq
+  · simp only [BitVec.toNat_ofNat, BitVec.toNat_udiv, Nat.mod_eq_of_lt ha, Nat.mod_eq_of_lt hb]
+    exact Nat.mod_eq_of_lt (Nat.lt_of_le_of_lt (Nat.div_le_self _ _) ha)
+  · simp only [BitVec.toNat_ofNat, BitVec.toNat_umod, Nat.mod_eq_of_lt ha, Nat.mod_eq_of_lt hb]
+    exact Nat.mod_eq_of_lt (Nat.lt_of_le_of_lt (Nat.mod_le _ _) ha)
+
+/-- `/` and `%` on the large path: a signed divider of `max(x.bits, y.bits)` bits; right for non-negative operands
+below half their own `mpa` size that fit `n` bits (and are non-negative as `intN`), divisor not zero. -/
+theorem fold_div_mod_wide (op : Op) (hop : op = .div ∨ op = .mod) (signed : Bool) (n cnt : Nat) (lt rt : TInfo)
+    (lv rv : MInt) (hk : lt.kind = rt.kind) (hL : 64 < lt.bits) (hn : n ≤ lt.bits) (hnr : n ≤ rt.bits)
+    (hd : divWide signed n (.int lt lv) (.int rt rv) = true) :
+    ∃ t v, evalBin op (.int lt lv) (.int rt rv) = .ok (.int t v) ∧ t.kind = lt.kind ∧
+      seenBV n (.int t v) = circuitOp op signed (seenBV n (.int lt lv)) (seenBV n (.int rt rv)) cnt := by
+  simp only [divWide, mpaOf, Bool.and_eq_true, Bool.or_eq_true, Bool.not_eq_true'] at hd
+  obtain ⟨⟨⟨hil, hir⟩, hdec⟩, hsg⟩ := hd
+  obtain ⟨hxm, hym, hy0, hxn, hyn⟩ := of_decide_eq_true hdec
+  have hil' := hil
+  have hir' := hir
+  simp only [imageExact, decide_eq_true_eq] at hil' hir'
+  obtain ⟨hx, hxb⟩ := hil'
+  obtain ⟨hy, hyb⟩ := hir'
+  obtain ⟨hnew, hns⟩ := new_large lt.bits hL
+  have hX : lv.bigv = ((lv.bigv.toNat : Nat) : Int) := (Int.toNat_of_nonneg hx).symm
+  have hY : rv.bigv = ((rv.bigv.toNat : Nat) : Int) := (Int.toNat_of_nonneg hy).symm
+  have cast_lt : ∀ (z : Int) (k : Nat), 0 ≤ z → z < ((2 ^ k : Nat) : Int) → z.toNat < 2 ^ k := by
+    intro z k hz h
+    have : ((z.toNat : Nat) : Int) < ((2 ^ k : Nat) : Int) := by rw [Int.toNat_of_nonneg hz]; exact h
+    exact_mod_cast this
+  have hXb := cast_lt _ _ hx hxb
+  have hYb := cast_lt _ _ hy hyb
+  have hXo := cast_lt _ _ hx hxm
+  have hYo := cast_lt _ _ hy hym
+  have hXn := cast_lt _ _ hx hxn
+  have hYn := cast_lt _ _ hy hyn
+  have hY0 : rv.bigv.toNat ≠ 0 := by omega
+  have hwx : wires lv.bigv lv.bits = lv.bigv.toNat := by
+    rw [wires_nonneg _ _ hx]; exact Nat.mod_eq_of_lt hXb
+  have hwy : wires rv.bigv rv.bits = rv.bigv.toNat := by
+    rw [wires_nonneg _ _ hy]; exact Nat.mod_eq_of_lt hYb
+  have hXm : lv.bigv.toNat < 2 ^ (max lv.bits rv.bits - 1) :=
+    Nat.lt_of_lt_of_le hXo (Nat.pow_le_pow_right (by omega) (by omega))
+  have hYm : rv.bigv.toNat < 2 ^ (max lv.bits rv.bits - 1) :=
+    Nat.lt_of_lt_of_le hYo (Nat.pow_le_pow_right (by omega) (by omega))
+  have hspx : padOperand lv.bigv.toNat lv.bits (max lv.bits rv.bits) = lv.bigv.toNat := by
+    unfold padOperand signPad
+    by_cases hp : idivSignPads = true
+    · rw [if_pos hp, if_neg]; intro h; rw [Nat.testBit_lt_two_pow hXo] at h; exact absurd h.2 (by decide)
+    · rw [if_neg hp]
+  have hspy : padOperand rv.bigv.toNat rv.bits (max lv.bits rv.bits) = rv.bigv.toNat := by
+    unfold padOperand signPad
+    by_cases hp : idivSignPads = true
+    · rw [if_pos hp, if_neg]; intro h; rw [Nat.testBit_lt_two_pow hYo] at h; exact absurd h.2 (by decide)
+    · rw [if_neg hp]
+  have hldm : largeDivMod lv.bits rv.bits lv.bigv rv.bigv =
+      (max lv.bits rv.bits, lv.bigv.toNat / rv.bigv.toNat, lv.bigv.toNat % rv.bigv.toNat) := by
+    unfold largeDivMod
+    simp only [hwx, hwy, hspx, hspy, idivC_nonneg _ _ _ hXm hYm hY0]
+  have hsa : signed = true → (seenBV n (CV.int lt lv)).msb = false ∧ (seenBV n (CV.int rt rv)).msb = false := by
+    intro h
+    cases hsg with
+    | inl h' => rw [h] at h'; exact absurd h' (by decide)
+    | inr h' => exact h'
+  obtain ⟨hcd, hcm⟩ := circuit_div_nonneg signed (seenBV n (CV.int lt lv)) (seenBV n (CV.int rt rv))
+    (fun h => (hsa h).1) (fun h => (hsa h).2) cnt
+  obtain ⟨hud, hum⟩ := ofNat_udiv n _ _ hXn hYn hY0
+  have hq : lv.bigv.toNat / rv.bigv.toNat < 2 ^ max lv.bits rv.bits :=
+    Nat.lt_of_le_of_lt (Nat.div_le_self _ _) (Nat.lt_of_lt_of_le hXb (Nat.pow_le_pow_right (by omega) (by omega)))
+  have hr : lv.bigv.toNat % rv.bigv.toNat < 2 ^ max lv.bits rv.bits :=
+    Nat.lt_of_le_of_lt (Nat.mod_le _ _) (Nat.lt_of_lt_of_le hXb (Nat.pow_le_pow_right (by omega) (by omega)))
+  cases hop with
+  | inl h =>
+    subst h
+    have heq : evalBin .div (.int lt lv) (.int rt rv) = constantMpa
+        (⟨max lv.bits rv.bits, 0#64, some ((lv.bigv.toNat / rv.bigv.toNat : Nat) : Int)⟩ : MInt) (some lt) := by
+      simp [evalBin, Op.isCmp, Op.isShift, Op.isArith, hk, hnew, hns, liftP, Mpa.div, hldm, bind, Except.bind]
+    obtain ⟨t, v, h1, h2, _, _, h5⟩ := const_nat n _ lt 0#64 _ hq hn
+    exact ⟨t, v, by rw [heq, h1], h2, by
+      rw [h5, hcd, seen_of_imageExact n lt lv hil hn, seen_of_imageExact n rt rv hir hnr]; exact hud⟩
+  | inr h =>
+    subst h
+    have heq : evalBin .mod (.int lt lv) (.int rt rv) = constantMpa
+        (⟨max lv.bits rv.bits, 0#64, some ((lv.bigv.toNat % rv.bigv.toNat : Nat) : Int)⟩ : MInt) (some lt) := by
+      simp [evalBin, Op.isCmp, Op.isShift, Op.isArith, hk, hnew, hns, liftP, Mpa.mod, hldm, bind, Except.bind]
+    obtain ⟨t, v, h1, h2, _, _, h5⟩ := const_nat n _ lt 0#64 _ hr hn
+    exact ⟨t, v, by rw [heq, h1], h2, by
+      rw [h5, hcm, seen_of_imageExact n lt lv hil hn, seen_of_imageExact n rt rv hir hnr]; exact hum⟩
+
+
 end Mpc.Fold
